@@ -1657,6 +1657,13 @@ COMPONENT_NATIVE = _native("verif_replay_component_options", "src/model/data.rs"
             ];
             let w = to_vec(&mk(flag));
             assert_eq!(w.len() as u64, mk(flag).length(), "length == bytes written");
+            // chained skip: a skips b; b (skipped) would skip c
+            let chain = || component![
+                "a" => DynOption::new(flag, |x| if *x == 1 { MessageOption::SkipField("b".to_string()) } else { MessageOption::None }),
+                "b" => DynOption::new(9 as u8, |_x| MessageOption::SkipField("c".to_string())),
+                "c" => U32::LE(5)
+            ];
+            assert_eq!(to_vec(&chain()).len() as u64, chain().length(), "chained skip: length == bytes written");
             assert_eq!(w.len(), if flag == 1 { 2 } else { 4 });
             let mut r = mk(0);
             r.read(&mut Cursor::new(w)).unwrap();
@@ -1729,6 +1736,10 @@ def component_options(ctx, mir, stats):
         skip_edge = [(l, t) for l, t in t2.items() if l != "0"]
         r = any(act[0] in bfs_reach(g, t, removed_nodes={nx[0]}) for l, t in skip_edge)
         r0 = act[0] in bfs_reach(g, t2["0"], removed_nodes={nx[0]})
+        # a field that is itself skipped contributes nothing: its own options are not even consulted
+        r_ins = fp_reachable(g, g.order[0], ins[0], stats, removed_edges={(s2, "0", t2["0"])})
+        obs.append({"id": "Component::%s:skipped-field-announces-nothing" % meth, "ok": not r_ins, "functions": [g.name], "needs_native": True, "native": None if not r_ins else COMPONENT_NATIVE,
+                    "detail": "a SkipField is recorded only for fields that are themselves processed (after the skip test)" if not r_ins else "a skipped field can still register its own SkipField in Component::%s: length/write/read disagree on chained skips" % meth, "where": g.name})
         obs.append({"id": "Component::%s:skipped-field-not-%s" % (meth, "written" if meth == "write" else "counted"), "ok": (not r) and r0, "functions": [g.name],
                     "detail": "a field named by an earlier SkipField is passed over; every other field is %s" % ("written" if meth == "write" else "counted") if ((not r) and r0) else "skip handling changed in Component::%s" % meth,
                     "where": g.name, "needs_native": True, "native": None if ((not r) and r0) else COMPONENT_NATIVE})
